@@ -38,7 +38,7 @@ P = {
                  "C20_merge_dotted_keys", "C20_domainN_nonvacuous", "C20_split_example_F4n", "C20_split_guard_example",
                  "C20_domain_nonvacuous", "C20_split_example", "C20_schema_loader_agree", "C20_tables_agree_accept_equal",
                  "C20_schema_loader_accept_equal",
-                 "C20_F1_refuted", "C20_F1_rows_all_disagree", "C20_F3_pinned_refuted", "C20_F3_repaired_on_witness", "C20_F4_refuted", "C20_F4_sharing_refuted",
+                 "C20_F1_pinned_refuted", "C20_F1_pinned_rows_all_disagree", "C20_F1f_refuted", "C20_F6_refuted", "C20_F3_pinned_refuted", "C20_F3_repaired_on_witness", "C20_F4_refuted", "C20_F4_sharing_refuted",
                  "C20_history_independent", "C20_load_history_independent", "C20_load_sequence_meets_spec", "C20_shared_defaults_refuted"],
     "streams": [{
         "name": "tree", "pkg": "./internal/config/parser", "test": "TestVerifC20",
@@ -49,7 +49,7 @@ P = {
         "name": "schema", "pkg": "./internal/rules/mechanisms", "test": "TestVerifC20Schema",
         "overlay": {"internal/rules/mechanisms/zz_verif_c20_schema_test.go": "c20/c20_schema_test.go"},
         "eval_module": "Run.Eval_C20", "check_term": "check_schema fixed_F1a fixed_F1b",
-        "n_quick": 0, "n_thorough": 0, "findings": {1: "C20-F1f", 6: "C20-F6"}, "env": {"VERIF_C20_PROBES": PROBES},
+        "n_quick": 0, "n_thorough": 0, "findings": {6: "C20-F6"}, "env": {"VERIF_C20_PROBES": PROBES},  # guard 1 (C20-F1 groups) cannot fire any more: a-e fixed, the rows of f are no mechanism probes
         "escalate": False,
     }],
     "generators": [gen_schema_tables],
@@ -58,7 +58,7 @@ P = {
         "overlay": {"internal/config/zz_verif_c20_meta_test.go": "c20/c20_meta_test.go",   # the same overlay as stream seq: one build
                     "internal/config/zz_verif_c20_seq_test.go": "c20/c20_seq_test.go"},
         "eval_module": "Run.Eval_C20", "check_term": "check_meta",
-        "n_quick": 120, "n_thorough": 1500, "findings": {4: "C20-F4", 5: "C20-F5", 6: "C20-F6"}, "escalate": False, "shard": 10,
+        "n_quick": 120, "n_thorough": 1500, "findings": {4: "C20-F4", 5: "C20-F5", 6: "C20-F6", 7: "C20-F1f"}, "escalate": False, "shard": 10,
     },
     "_seq_stream": {
         # sequences of loads in one (fresh) process through the real NewConfiguration; the meta driver's helpers are reused
@@ -80,7 +80,7 @@ P = {
             "(meta, model-free) real config.NewConfiguration with validator, real Configuration struct, defaults and "
             "hooks: for example_config.yaml, test_config.yaml and four inline configurations, random subsets of the nameable leaves are "
             "moved to the environment; the three related loads all-file / split / all-env are compared by reflect.DeepEqual of the "
-            "decoded Configuration (corpus: the auditor's three asymmetries).  (schema) ~180 probes derived from the regenerated "
+            "decoded Configuration (corpus: the auditor's three asymmetries).  (schema) ~200 probes derived from the regenerated "
             "schema/loader tables (types, config objects, options incl. nested ones, enums, ranges, duration and non-empty classes, "
             "unknown and missing options) through the real ValidateConfig and the real mechanism loader.  (tree) generated configurations (1-3 top-level fields, maps/lists/scalars nested up to depth 4, 27 scalar texts incl. "
             "0123/1e3/0x10/quoted) with every leaf assigned to a temporary YAML file or to the process environment (modes allfile/"
@@ -93,7 +93,11 @@ P = {
     "anchors": ["internal/config/parser/configloader.go", "internal/config/parser/env.go", "internal/config/parser/merge.go",
                 "internal/config/parser/yaml.go", "internal/config/configuration.go", "internal/config/default_configuration.go",
                 "internal/config/validator.go", "schema/config.schema.json"],
-    "trusted": ["YAML scalar typing (toRealType / the YAML parser) is an oracle: the observed typed value per scalar text of the case",
+    "trusted": ["YAML scalar typing (toRealType / the YAML parser) is an oracle: the observed typed value per scalar text of the case.  That the "
+                "same scalar text is typed alike from a file and from the environment is part of the property (identical effect) and is NOT a "
+                "theorem: to_real is universally quantified and file leaves enter the theorems already typed.  It is checked on every run for "
+                "the 27 scalar texts of the generator by a t.Fatalf in the tree driver (c20_tree_test.go, the toRealType-vs-YAML comparison "
+                "before the cases are generated), outside the Coq verdict",
                 "the sha256 suffix of environment keys is modelled by its pre-image (normalised name, value text); collisions are not modelled",
                 "mapstructure decoding of the merged tree into the Configuration struct is not modelled: the observable is the merged tree "
                 "that Load hands to the decoder (captured by a decode hook)",
@@ -121,52 +125,79 @@ P = {
                   "clash reached through nodes of equal kind and otherwise shows later-wins per leaf; the evaluator's finite "
                   "domain check is proved sound for the theorems' domain.  The schema/loader agreement is a finite vm_compute statement over tables regenerated on every run from "
                   "schema/config.schema.json and the loader's type registries/config structs, nested option objects included (endpoint, assertions, subject, ...: ~160 option rows; open objects as a pseudo option "
-                  "`<any>`), with the disagreeing rows recorded as C20-F1 in groups a, b, c (all fixed), each with its own repair flag.  The model is tied to the code by running both on ~1200 (quick) / 30000 (thorough) generated loads per "
-                  "run, now ~1000 quick (every observed outcome over 6-30 repetitions must be an outcome of the model for some iteration order) and "
-                  "by replaying ~60 table-derived probes through the real schema validator and the real mechanism loader.  "
-                  "That the configuration is a FUNCTION of (defaults, file, environment) also over sequences of loads in one process "
-                  "is C20_history_independent / C20_load_history_independent / C20_load_sequence_meets_spec (C20/History.v: a heap "
-                  "model of what NewConfiguration does around the tree-level loader — a Configuration value holds its map-, slice- and "
-                  "pointer-typed settings as references, decoding writes into the instance referred to, a deep look dereferences at "
-                  "the time of looking; with new instances per defaultConfig() call every result of every sequence, looked at after "
-                  "all its loads, is what its own three inputs give alone; C20_shared_defaults_refuted: with a defaults value "
-                  "copied shallowly it is not), and it is checked on the real NewConfiguration on every run by stream seq "
-                  "(65 quick / 1500 thorough sequences of 2-4 different loads, each in a fresh process, against each load alone in a "
-                  "fresh process; deep rendering of the decoded Configuration after each load and again after every later load).",
-    "level_note": "History block (4 entries, seeded round 5): the heap model of C20/History.v is a model of Go's value/reference "
-                  "semantics around the loader, not a transcription of mapstructure: WHICH settings are reference-typed and that "
-                  "decoding writes the loaded subtree into the existing instance are assumptions of the model (parameters rps, "
-                  "sub/put); its tie to the code is stream seq, which is model-free (v_corr there = a load alone in a fresh process "
-                  "is stable over two runs).  Of the other 34 entries in Properties/C20.v thirteen are vm_compute witnesses/examples (refuted, repaired-on-witness, non-vacuity "
-                  "incl. the three F4n/F4s examples, split examples, the two table statements), one is plumbing (in_scope_b_sound), two relate "
-                  "the two F4 guards / domains; the general content is in the other eighteen (ten under the syntactic guard_F4 and "
-                  "parametric in fix3, seven restated under the narrowed guard for fix3 = true, and the merge theorem for trees "
-                  "with dotted keys).  With the _F4n block, names of the C20-F4 shape whose list element exists as a map in defaults or "
-                  "file and that are alone at their first name segment are PROVED (all map orders, all permutations), no longer only "
-                  "checked on every run; what stays outside every theorem is exactly where guard_F4n fires (the finding: element absent, "
-                  "or two variables sharing element and first name segment, e.g. ..._0_CONFIG_USER + ..._0_CONFIG_PASSWORD, where the "
-                  "model too loses one of them for some map order) and, for the F4n block, the code before 0f39207 (fix3 = false).  "
+                  "`<any>`), with the disagreeing rows recorded as C20-F1 in groups a-f, each with its own repair flag: a-e fixed (80621e4, 6c5864d, "
+                  "c343928, cc49e3a, 86b640c), f open (10 name rows of the non-mechanism sections, C20_F1f_refuted); in addition the 31 "
+                  "duration-valued option rows (of 162 mechanism option rows) are excused as C20-F6 (guard_F6_row, C20_F6_refuted) — "
+                  "measured on the current tables 72 of 669 entries of all_rows disagree = 10 (F1f) + 62 (F6, each row counted from both "
+                  "tables).  The model is tied to the code by running both on ~1000 (quick) / 30000 (thorough) generated loads per run "
+                  "(every observed outcome over 6-30 repetitions must be an outcome of the model for some iteration order) and "
+                  "by replaying ~200 table-derived probes through the real schema validator and the real mechanism loader.  That the same "
+                  "scalar text is typed alike from file and environment is not a theorem (to_real is a free oracle); the tree driver "
+                  "checks it for its 27 scalar texts on every run.  "
+                  "Sequences of loads in one process: C20_history_independent / C20_load_history_independent / "
+                  "C20_load_sequence_meets_spec are theorems about a heap MODEL of what NewConfiguration does around the tree-level loader "
+                  "(C20/History.v: a Configuration value holds its map-, slice- and pointer-typed settings as references, decoding "
+                  "writes into the instance referred to, a deep look dereferences at the time of looking); they hold by construction "
+                  "of that model when defaultConfig() makes new instances per call (share = false): every result of every sequence, "
+                  "looked at after all its loads, is what its own three inputs give alone (C20_shared_defaults_refuted: with a "
+                  "defaults value copied shallowly it is not).  That the CODE behaves like the share = false model is not proved; "
+                  "it is checked on the real NewConfiguration on every run by the model-free stream seq (65 quick / 1500 thorough "
+                  "sequences of 2-4 different loads, each in a fresh process, against each load alone in a fresh process; deep "
+                  "rendering of the decoded Configuration after each load and again after every later load).",
+    "level_note": "40 entries in Properties/C20.v.  General content, 18: six under the syntactic guard_F4 and parametric in fix3 "
+                  "(load_meets_spec, env_order_independent, env_wins_per_leaf, defaults_fill, file_env_equivalent, ..._splits), four "
+                  "independent of the guards (naming read-back, the two merge theorems, table agreement => equal acceptance), seven "
+                  "restated under the narrowed guard for fix3 = true (_F4n/_F4s), and the merge theorem for trees with dotted keys.  "
+                  "One is plumbing (in_scope_b_sound), two relate the two F4 guards / domains.  Fifteen are vm_compute "
+                  "witnesses/examples/finite table statements: non-vacuity and split examples (5), the two table statements "
+                  "(schema_loader_agree, schema_loader_accept_equal — the latter with ALL value classes erased, durations and "
+                  "non-emptiness), and the findings' witnesses: open findings as `_refuted` about the code/tables as they are "
+                  "(C20_F1f_refuted, C20_F4_refuted, C20_F4_sharing_refuted, C20_F6_refuted), repaired ones as `_pinned_refuted` about the "
+                  "variant before the commit (C20_F1_pinned_refuted, C20_F1_pinned_rows_all_disagree: groups a, b, c before 80621e4 / "
+                  "6c5864d / c343928; C20_F3_pinned_refuted before 0f39207, with C20_F3_repaired_on_witness).  C20-F5 has no theorem "
+                  "(there is no model of validating the file before the merge); it is observed by stream meta only (guard 5), the "
+                  "container-level `required` part of C20-F6 likewise (guard 6); groups d and e of C20-F1 have no pinned theorem "
+                  "(their rows were caught by the generated table check and the probes).  History block (4 entries): the heap model "
+                  "of C20/History.v is a model of Go's value/reference semantics around the loader, not a transcription of "
+                  "mapstructure; its tie to the code is the model-free stream seq (v_corr there = a load alone in a fresh process "
+                  "is stable over two runs).  "
+                  "With the _F4n block, names of the C20-F4 shape whose list element exists as a map in defaults or "
+                  "file and that are alone at their first name segment are PROVED (all map orders, all permutations); what stays "
+                  "outside every theorem is exactly where guard_F4n fires (element absent, or two variables sharing element and first "
+                  "name segment, e.g. ..._0_CONFIG_USER + ..._0_CONFIG_PASSWORD, where the model too loses one of them for some map "
+                  "order) and, for the F4n block, the code before 0f39207 (fix3 = false).  guard_F4n / guard_F4s are sufficient "
+                  "shapes for the defect: no theorem says the property fails wherever guard_F4n fires (C20_F4_refuted and "
+                  "C20_F4_sharing_refuted give one input per clause).  "
                   "For splits the guard is evaluated on the remaining file keep_map sel c (C20_file_env_equivalent_splits_F4n); "
                   "keep never removes a map or a list, so only the sharing clause can fire there, and "
                   "C20_file_env_equivalent_splits_F4s states the splits theorem with that clause alone (guard_F4s, a condition on "
                   "the variables only).  "
+                  "Not covered by any theorem: the decoded Configuration (mapstructure; streams meta and seq only); equal typing of "
+                  "one scalar text from file and environment (driver check only); `usable from a file iff from the environment` "
+                  "for the real validator (C20-F5, C20-F6, C20-F1f refute it).  "
                   "Trusted: Coq kernel/vm_compute; the correspondence harness (generators, decode-hook capture of the merged tree, "
                   "Gallina rendering); YAML scalar typing is an oracle (observed per case); the sha256 key suffix is modelled by its "
-                  "pre-image; mapstructure decoding into the Configuration struct is not modelled (the observable is the tree handed "
-                  "to the decoder); the translation of the JSON schema and of the Go config structs into the tables "
-                  "(harness/tools/schema, go/ast + python) is trusted and cross-checked by the dynamic probes.  Open findings: "
-                  "C20-F1f (names of non-mechanism sections: shared "
-                  "ServiceConfig wider than the schema per service, `if` on mechanism definitions, `version`; no repair proposed), "
-                  "C20-F5 (the schema validates the file alone, so a split moving a schema-required leaf is rejected), "
-                  "C20-F6 (schema stricter than loader: duration syntax, container-level required), no small repair; "
-                  "F1a/b/c/d/e fixed by 80621e4 / 6c5864d / c343928 / cc49e3a / 86b640c, "
-                  "C20-F4 (nested structure inside a list element stays a flat dotted key; fixes/C20-F4.diff not applicable because it "
-                  "edits a repo unit test that pins the flat key).  Fixed: C20-F3 (0f39207), general theorem proved for the repaired "
-                  "code; the pinned old behaviour is C20_F3_pinned_refuted.",
+                  "pre-image; the translation of the JSON schema and of the Go config structs into the tables "
+                  "(harness/tools/schema, go/ast + python) is trusted and cross-checked by the dynamic probes.  "
+                  "Open findings: C20-F1f (names of the non-mechanism sections: 10 table rows, 4 of them — serve.decision.cors, "
+                  "serve.decision.connections_limit, serve.management.connections_limit, serve.management.respond — an observable "
+                  "asymmetry, replayed by the meta base decision_cors under guard 7; no repair proposed), C20-F4 (nested structure "
+                  "inside a list element stays a flat dotted key; fixes/C20-F4.diff not applicable because it edits a repo unit test "
+                  "that pins the flat key), C20-F5 (the schema validates the file alone, so a split moving a schema-required leaf is "
+                  "rejected; no small repair), C20-F6 (schema stricter than loader: duration syntax, container-level required; no "
+                  "small repair).  Fixed: C20-F3 (0f39207; general theorem proved for the repaired code), C20-F1a/b/c/d/e "
+                  "(80621e4 / 6c5864d / c343928 / cc49e3a / 86b640c).",
     "assumptions": ["names and values are in the modelled domain: key segments contain no '.' or '#', list indices <= 2^20, "
                     "ASCII names (strings.ToLower is modelled on ASCII)",
                     "the schema stream needs a minimal valid configuration per mechanism type (harness/tools/schema/gen.py BASE); "
-                    "a mechanism type added later is probed uncontrolled (property only) until an entry is added"],
+                    "a mechanism type added later is probed uncontrolled (property only) until an entry is added",
+                    "a key can be named from the environment only if every segment is [a-z0-9][a-z0-9_]* (valid_seg, NamingProofs.v): map "
+                    "keys with upper case, '-', '.', and numeric MAP keys (header names like X-Foo) cannot be given by a variable; the "
+                    "meta and seq streams move only nameable leaves",
+                    "environment values type as scalars (typed_env): a value that YAML reads as list/map/null (X=, X=[a]) is outside every theorem",
+                    "History block: which settings are reference-typed (rps), that decoding writes into the existing instance, and that "
+                    "defaultConfig() makes new instances per call (share = false) are assumptions of the model, tied to the code by "
+                    "stream seq only"],
 }
 
 P["streams"].append(P.pop("_meta_stream"))
